@@ -1587,6 +1587,10 @@ class AstEval:
         """Evaluate binary operator: *."""
         return (await self.aeval(arg0)) * (await self.aeval(arg1))
 
+    async def ast_binop_matmult(self, arg0, arg1):
+        """Evaluate binary operator: @."""
+        return (await self.aeval(arg0)) @ (await self.aeval(arg1))
+
     async def ast_binop_div(self, arg0, arg1):
         """Evaluate binary operator: /."""
         return (await self.aeval(arg0)) / (await self.aeval(arg1))
